@@ -99,7 +99,7 @@ def assumptions_of(props_file):
     rc, out, err = C.sh("coqc -Q . CacheV %s 2>&1" % props_file, cwd=C.COQ, timeout=900)
     closed = out.count("Closed under the global context")
     axioms = re.findall(r"^Axioms:\n((?:.+\n)+)", out, re.M)
-    thms = re.findall(r"^(?:Theorem|Example|Corollary)\s+(\w+)", open(os.path.join(C.COQ, props_file)).read(), re.M)
+    thms = re.findall(r"^(?:Theorem|Example|Corollary|Definition)\s+(C\d\d\w*)", open(os.path.join(C.COQ, props_file)).read(), re.M)
     return dict(ok=(rc == 0), closed=closed, axioms=[a.strip() for a in axioms], theorems=thms, log=out[-2000:] if rc else "")
 
 def proof_report(ctx, props_file, proof_files):
